@@ -239,6 +239,47 @@ namespace {
       vf::env::set_hash(Hash::Real);
    }
 
+   // ---- part 1b: two pools alive at the same time, after a third one has lived and died ----
+   // Alphabet: (pool A | pool B) x 5 words; every sequence up to the depth; after every step every String of BOTH pools
+   // is re-read.  Interning in one pool must not touch what the other one handed out, whatever an earlier pool left behind.
+   void two_pools(int depth)
+   {
+      std::vector<U8> W{ u8"p", u8"abcdefghi", U8(25, u8'q'), u8"int", U8(40, u8'z') };
+      const int n = int(W.size()) * 2;
+      long long idx = 0;
+      for (int hm = 0; hm < 3; ++hm) {
+         vf::env::set_hash(vf::env::Hash(hm));
+         for (int d = 2; d <= depth; ++d) {
+            std::vector<int> h(std::size_t(d), 0);
+            while (true) {
+               if (opt.mine(idx++)) {
+                  { Checked gone; gone.wit.part = "two-pools"; gone.intern(u8"left-behind-by-an-earlier-pool"); gone.intern(U8(30, u8'g')); }
+                  Checked a, b;
+                  for (Checked* c : { &a, &b }) { c->wit.part = "two-pools"; c->wit.hash = hm; }
+                  for (int i = 0; i < d; ++i) {
+                     Checked& c = h[std::size_t(i)] % 2 ? b : a;
+                     for (Checked* k : { &a, &b }) { k->wit.ops.push_back(h[std::size_t(i)]); k->wit.text += std::string(h[std::size_t(i)] % 2 ? "B:'" : "A:'") + show(W[std::size_t(h[std::size_t(i)] / 2)]) + "' "; }
+                     const ipr::String* s = c.intern(W[std::size_t(h[std::size_t(i)] / 2)]);
+                     a.recheck(); b.recheck();
+                     // a dynamic word interned in both pools has a node in each; a reserved word has one node for both
+                     Checked& other = h[std::size_t(i)] % 2 ? a : b;
+                     auto it = other.model.find(W[std::size_t(h[std::size_t(i)] / 2)]);
+                     if (it != other.model.end() and (it->second == s) != is_reserved(W[std::size_t(h[std::size_t(i)] / 2)]))
+                        fail("C03:two-pools:sharing", d, std::string("the word '") + show(W[std::size_t(h[std::size_t(i)] / 2)]) + "' interned in two live pools " + (it->second == s ? "has ONE node" : "has two nodes although it is reserved"), c.wit);
+                     rep.count("states");
+                  }
+                  rep.count("traces");
+               }
+               int i = d - 1;
+               while (i >= 0 and ++h[std::size_t(i)] == n) h[std::size_t(i--)] = 0;
+               if (i < 0) break;
+               if ((idx & 0xfff) == 0 and opt.expired()) { rep.cap("deadline in two-pool sequences"); vf::env::set_hash(vf::env::Hash::Real); return; }
+            }
+         }
+      }
+      vf::env::set_hash(vf::env::Hash::Real);
+   }
+
    // ---- part 2: boundary sweeps ----
    U8 pattern(std::size_t n, unsigned salt)
    {
@@ -487,7 +528,7 @@ int main(int argc, char** argv)
       return rep.viols.empty() ? 0 : 1;
    }
    const bool deep = opt.thorough();
-   if (not only_sweeps) sequences(deep ? 5 : 4);
+   if (not only_sweeps) { sequences(deep ? 5 : 4); two_pools(deep ? 5 : 4); }
    sweeps(deep);
    if (opt.shard == 0) {
       rep.info("bounds", vf::JObj{}.num("alphabet", 14).num("max_sequence_length", deep ? 5 : 4).str("hash_modes", "real, constant (one bucket), length-only")
